@@ -44,6 +44,11 @@ OPS = ['write-new', 'append-rows-upper', 'append-rows-lower-rec', 'append-pairs'
 
 
 CASEKEYS = {1: 'mjd', 2: 'Mjd', 3: 'mJD'}
+NOTHING = ['{}', 'TAB: empty lists', 'tab: empty lists', 'TAB: zero-length record array', 'tab: zero-length record array']
+
+
+def nothing(k, empty_rec):
+    return [{}, {'TAB': {'id': [], 'name': []}}, {'tab': {'id': [], 'name': []}}, {'TAB': empty_rec()}, {'tab': empty_rec()}][k]
 
 
 class Model(object):
@@ -126,11 +131,14 @@ def ob_history(nsteps, raw, first=None, nchar=2):
                     model.pairs.append(('key%d' % step, val))
                     model.pairs.append((CASEKEYS[step], 'w%d' % step))
                 elif op == 'append-empty':
+                    # 'nothing' in any of its spellings (choice made by the solver): no key, a table without rows given as
+                    # lists or as a zero-length record array, under either letter case
+                    nv = int(ctx.int('nothing%d' % step, 0, len(NOTHING) - 1))
                     with warnings.catch_warnings(record=True) as w:
                         warnings.simplefilter('always')
-                        par.append({})
-                    ctx.require(len(w) >= 1, 'appending nothing warns', dict(d, step=step))
-                    ctx.require(fs.files == before_files, 'appending nothing changes no file', dict(d, step=step))
+                        par.append(nothing(nv, lambda: symnp.SymRec(0, np.dtype([('id', 'i4'), ('name', 'S6')]))))
+                    ctx.require(len(w) >= 1, 'appending nothing warns', dict(d, step=step, nothing=NOTHING[nv]))
+                    ctx.require(fs.files == before_files, 'appending nothing changes no file', dict(d, step=step, nothing=NOTHING[nv]))
                 elif op == 'write-over-existing':
                     try:
                         par.write('/d/existing.par')
@@ -260,8 +268,10 @@ def replay(rec):
             elif op == 'append-empty':
                 with warnings.catch_warnings(record=True) as w:
                     warnings.simplefilter('always')
-                    par.append({})
-                if not w or sorted(os.listdir(tmp)) != listing:
+                    par.append(nothing(int(inp.get('nothing%d' % step, 0)), lambda: np.zeros(0, dtype=[('id', 'i4'), ('name', 'S6')])))
+                with open(model.path) as f:
+                    now = f.read()
+                if not w or sorted(os.listdir(tmp)) != listing or now != before:
                     return True
             elif op == 'write-over-existing':
                 try:
